@@ -12,7 +12,7 @@ RULE = (
     "one of 6 declaration variants (default name, explicit name, two decorators, two arguments, other name with optional "
     "response, response only), the same in a second context T with single-name variants (colliding with S), a second "
     "function in S declaring a shared name, del of each function, edit+reload / delete+reload of a script file declaring "
-    "a service, call every name of the universe with fresh data} and a final unload; after every completed step "
+    "a service, redefinition of that file's service function from inside a running service function, call every name of the universe with fresh data} and a final unload; after every completed step "
     "hass.services.has_service equals the declared-services model (owner context, live accepted declarations), a call "
     "runs the newest live declaration with trigger_type='service' + the call data and returns its result when a "
     "response is supported, a foreign declaration changes nothing, and nothing remains after unload. outgoing: every "
@@ -55,7 +55,7 @@ def func_src(ctx, fname, variant, gen):
 
 def ops(tier):
     out = [("DEF", "S", v) for v in S_VARIANTS] + [("DEF", "T", v) for v in T_VARIANTS]
-    out += [("DEL", "S"), ("DEL", "T"), ("DEFO",), ("DELO",), ("FEDIT",), ("FDEL",)]  # every step is followed by a call of every name
+    out += [("DEL", "S"), ("DEL", "T"), ("DEFO",), ("DELO",), ("FEDIT",), ("FDEL",), ("FREDEF",)]  # every step is followed by a call of every name
     return out
 
 
@@ -106,8 +106,20 @@ class Model:
         return max(ds, key=lambda f: f["gen"]) if ds else None
 
 
+REDEF = '''
+@service("test.redef")
+def redef(gen=0):
+    """Redefine the file's service function from inside a running function."""
+    global fsvc
+    @service("test.f1")
+    def fsvc(**kw):
+        runs.append(("F", "fsvc", gen, kw.get("trigger_type"), kw.get("x"), sorted([k for k in kw if k not in ("trigger_type", "x", "context")])))
+        return {"got": kw.get("x"), "gen": gen}
+'''
+
+
 def file_src(gen):
-    return "runs = []\n" + "@service(\"test.f1\")\n" + BODY.format(fname="fsvc", ctx="F", gen=gen)
+    return "runs = []\n" + "@service(\"test.f1\")\n" + BODY.format(fname="fsvc", ctx="F", gen=gen) + REDEF
 
 
 def run_seq(legacy, seq, final_unload=True):
@@ -195,6 +207,16 @@ def run_seq(legacy, seq, final_unload=True):
                 w.reload()
                 if w.g("file.a") is not None:
                     w.g("file.a")["runs"] = runs
+            elif op[0] == "FREDEF":
+                if fgen is None:
+                    continue
+                new = m.define("F", "fsvc", [("test", "f1")], "none")
+                fgen = new["gen"]
+                try:
+                    w.call_service("test", "redef", {"gen": fgen})
+                except Exception as exc:  # noqa
+                    return {"kind": "redefinition-service-call-raised", "step": i, "op": list(op), "detail": repr(exc)[:200]}, trace, m
+                w.settle()
             elif op[0] == "FDEL":
                 if fgen is None:
                     continue
